@@ -327,7 +327,7 @@ def _main(argv: list[str]) -> int:
         "distinct_nontrivial": len(stats.nt),
         "rule": mod.RULE,
         "samples": stats.samples,
-        "generated_cases": stats.cases,
+        "generated_cases": stats.cases + stats.extra.get("histories", 0),  # a state-machine history is one generated case
         "classes": dict(sorted(stats.classes.items())),
         "excluded_by_construction": dict(stats.excluded),
         "sub_checks": [s.name for s in mod.SUBS if not only or s.name in only],
@@ -358,7 +358,7 @@ def _main(argv: list[str]) -> int:
         print(f"VIOLATION property={pid} replay={path}")
         return 1
     print(
-        f"OK property={pid} tier={tier} seed={seed} cases={stats.cases} evaluations={stats.evaluations} "
+        f"OK property={pid} tier={tier} seed={seed} cases={stats.cases + stats.extra.get("histories", 0)} evaluations={stats.evaluations} "
         f"distinct_nontrivial={len(stats.nt)} wall={wall:.1f}s"
     )
     return 0
